@@ -381,6 +381,18 @@ func runProp(cfg runConfig) int {
 		}
 	}
 
+	if os.Getenv("VERIF_DUMP") != "" {
+		for k, i := range diverge {
+			if k < 10 {
+				fmt.Fprintf(os.Stderr, "DIVERGE case=%s\n  impl =%s\n  model=%s\n", clip(cases[i].Line, 400), clip(implOut[i], 300), clip(modelOut[i], 300))
+			}
+		}
+		for k, f := range oracleFails {
+			if k < 10 {
+				fmt.Fprintf(os.Stderr, "ORACLE case=%s\n  impl =%s\n  clause=%s\n", clip(cases[f.idx].Line, 400), clip(implOut[f.idx], 300), f.clause)
+			}
+		}
+	}
 	violations := 0
 	var lines []string
 	knownSeen := map[string]bool{}
